@@ -62,7 +62,9 @@ def sessions(rng, quick):
     cyc = [(0, Variant(130, (0,), True)), (0, Variant(131, (1,), False)), (0, Variant(132, (0, 1), False)), (0, Variant(133, (), True)),
            (1, Variant(140, (0,), True)), (1, Variant(141, (1,), False)), (1, Variant(142, (2,), False)), (1, Variant(143, (0,), False)),
            (2, Variant(150, (0,), False)), (2, Variant(151, (1,), True)), (2, Variant(152, (), False))]
-    for disk in (disk0, disk1, disk2):
+    # a file that is included but neither on disk nor open (until the session opens it): the include does not resolve
+    disk3 = {0: Variant(230, (1,), True), 1: Variant(231, (2,), False)}
+    for disk in (disk0, disk1, disk2, disk3):
         for n in (1, 2, 3):
             for combo in itertools.product(cyc, repeat=n):
                 if n == 3 and rng.random() > (0.04 if quick else 0.5):
